@@ -123,7 +123,7 @@ func monC15(c *drv.Ctx) {
 			cs.Sample(cs.Desc)
 		}
 	})
-	c.Stage("raw-random", c.Pick(3000, 200000), false, func(cs *drv.Case) {
+	c.Stage("raw-random", c.Pick(50000, 500000), false, func(cs *drv.Case) {
 		r := cs.R
 		n := 1 + r.Intn(8)
 		lens := make([]int, n)
@@ -143,7 +143,7 @@ func monC15(c *drv.Ctx) {
 		cs.Count(large >= 1, "rawr", lens, bin)
 	})
 	// (2) Base / BaseResp through FastWriteNocopy with a recording direct writer
-	c.Stage("structs", c.Pick(4000, 300000), false, func(cs *drv.Case) {
+	c.Stage("structs", c.Pick(50000, 600000), false, func(cs *drv.Case) {
 		r := cs.R
 		fl := func() string {
 			if r.Intn(2) == 0 {
